@@ -55,7 +55,7 @@ CLASSES = [
     "migrate_v0", "migrate_v1", "custom_ws", "nested_ws", "collision_raises",
     "nondefault_name", "with_cache", "with_history",
     "idempotent_second_run", "uptodate_noop", "random_name", "config_replaced_same_size_and_mtime",
-    "path_rel", "path_dot", "path_pathlike",
+    "path_rel", "path_dot", "path_pathlike", "path_cli",
 ]
 ASSUMPTIONS = [
     "legacy projects are those signac 1.x could write: signac.rc holding project=<name>, optional relative "
@@ -181,6 +181,7 @@ def _build_legacy(root, case):
 
 
 FORMS = ("rel", "dot", "pathlike")
+MIG_FORMS = FORMS + ("cli",)  # how a migration is requested
 
 
 @contextlib.contextmanager
@@ -227,6 +228,15 @@ def _migrate(root, form=None, ctx=None):
 
     err = io.StringIO()
     try:
+        if form == "cli":
+            # the command line front end: `signac migrate -r ROOT --yes`
+            import argparse
+
+            from signac import __main__ as cli
+
+            with contextlib.redirect_stderr(err), contextlib.redirect_stdout(io.StringIO()):
+                cli.main_migrate(argparse.Namespace(root_directory=root, yes=True))
+            return None
         with contextlib.redirect_stderr(err), _path_form(root, form, ctx) as arg:
             apply_migrations(arg)
     except HarnessError:
@@ -623,7 +633,7 @@ def migration_space():
         }
         i += 1
         if n == 1:
-            for form in FORMS:
+            for form in MIG_FORMS:
                 yield {
                     "kind": "migrate", "version": version, "name": name, "ws": ws, "collide": collide,
                     "cache": cache, "history": history, "jobs": _jobs(n, i), "form": form,
@@ -644,7 +654,7 @@ def uptodate_space():
         for cache in (False, True):
             yield {"kind": "uptodate", "jobs": _jobs(n, n), "cache": cache, "pdoc": {"p": n} if n % 2 else None}
             if n in (0, 2):
-                for form in FORMS:
+                for form in MIG_FORMS:
                     yield {"kind": "uptodate", "jobs": _jobs(n, n), "cache": cache, "pdoc": None, "form": form}
 
 
@@ -671,6 +681,8 @@ REPRESENTATIVES = [
     {"kind": "migrate", "version": None, "name": "my project", "ws": "data/ws", "collide": False, "cache": False, "history": False, "jobs": _jobs(2, 0), "pdoc": None, "form": "pathlike"},
     {"kind": "migrate", "version": "0", "name": "None", "ws": None, "collide": False, "cache": False, "history": False, "jobs": _jobs(2, 0), "pdoc": None, "form": "dot"},
     {"kind": "uptodate", "jobs": _jobs(2, 0), "cache": True, "pdoc": None, "form": "pathlike"},
+    {"kind": "uptodate", "jobs": _jobs(2, 0), "cache": False, "pdoc": None, "form": "cli"},
+    {"kind": "migrate", "version": "1", "name": "None", "ws": "ws", "collide": False, "cache": True, "history": True, "jobs": _jobs(2, 0), "pdoc": {"p": 1}, "form": "cli"},
 ]
 
 NAME_ALPHABET = string.digits + string.ascii_letters + string.punctuation + " "
